@@ -522,30 +522,14 @@ def run(ctx):
                         if k2 == 'rv' and v2[2]['rv'].get('def') == b.id and dflt_false:
                             sw_body, sw_block, res_local = vb_body, t2['target'], t2['dest']['l']
         if res_local is not None:
-            # follow Not(..) and plain moves to the switch that tests the value
-            cur = res_local
-            for _ in range(6):
-                nxt = None
-                for i2, j2, s2 in sw_body.stmts():
-                    if s2['k'] == 'assign' and not s2['place']['p']:
-                        if s2['rv']['k'] == 'un' and s2['rv']['op'] == 'Not' and op_local(s2['rv']['a']) == cur:
-                            nxt = s2['place']['l']
-                            negs += 1
-                        elif s2['rv']['k'] == 'use' and op_local(s2['rv']['op']) == cur:
-                            nxt = s2['place']['l']
-                sws = [i2 for i2 in range(len(sw_body.blocks)) if sw_body.term(i2)['k'] == 'switch' and op_local(sw_body.term(i2)['discr']) == cur]
-                if sws:
-                    t2 = sw_body.term(sws[0])
-                    false_targets = [x for v, x in t2['targets'] if v == '0']
-                    true_t = t2['otherwise']
-                    on_true = mirq.dominates(sw_body, true_t, vbb) and true_t not in false_targets
-                    on_false = bool(false_targets) and mirq.dominates(sw_body, false_targets[0], vbb) and false_targets[0] != true_t
-                    if on_true != on_false:
-                        pol = on_true
-                    break
-                if nxt is None:
-                    break
-                cur = nxt
+            # on which side of that boolean does the violation lie?  (constant propagation over booleans: Not, moves, the
+            # true / false assigned in the arms of a match or matches!, && / ||)
+            if sw_body is b and res_local == cmp_local:
+                pol = mirq.bool_polarity(sw_body, res_local, i, j, vbb)
+            else:
+                # the value returned by Option::map_or / is_some_and in the body that raises the violation
+                call_bb = [bb2 for bb2, t2 in sw_body.calls() if t2.get('target') == sw_block and t2['dest']['l'] == res_local]
+                pol = mirq.bool_polarity(sw_body, res_local, call_bb[0], None, vbb) if call_bb else None
         if pol is not None and negs % 2 == 1:
             pol = not pol
         eff = op if pol in (True, None) else NEG[op]
